@@ -196,8 +196,9 @@ def helper_affine(program, name):
         return None, str(e)
     p = ('param', ex.params[0])
     rets = [e for e in ex.events if e[0] == 'return']
-    none_ok = bool(rets) and rets[0][2] == NONE and sym.conj(rets[0][1]) == [('cmp', 'is', p, NONE)]
-    others = rets[1:] if none_ok else rets
+    none_branch = bool(rets) and sym.conj(rets[0][1]) == [('cmp', 'is', p, NONE)]
+    none_ok = none_branch and rets[0][2] == NONE
+    others = rets[1:] if none_branch else rets
     if len(others) != 1:
         return None, f"{len(others)} value-returning paths"
     a = affine(others[0][2], p)
